@@ -538,6 +538,11 @@ def stepFilterOp (d : DState) (op : String) (toks impl : List String) : Option (
     let inst ← d.get (← id.toNat?)
     let d := (d.put (← nid.toNat?) { inst with own := false }).flag "clone"
     some (report d op { model := "ok", impl := implS })
+  | ["clonefrom", aid, bid] => do
+    -- `a.clone_from(&b)`: afterwards `a` is a copy of `b`
+    let inst ← d.get (← bid.toNat?)
+    let d := (d.put (← aid.toNat?) { inst with own := false }).flag "clonefrom"
+    some (report d op { model := "ok", impl := implS })
   | ["gutsrt", id, nid] => do
     let inst ← d.get (← id.toNat?)
     let d := (d.put (← nid.toNat?) { inst with own := false }).flag "gutsrt"
